@@ -78,7 +78,7 @@ def repo_fingerprint():
 
 def verif_fingerprint(ctx):
     h = hashlib.sha256()
-    pats = ['harness/src/**/*.rs', 'harness/Cargo.toml', 'coq/**/*.v', 'ocaml/*.ml', 'lib/*.py']
+    pats = ['harness/src/**/*.rs', 'harness/Cargo.toml', 'coq/Base/*.v', 'coq/Model/*.v', 'coq/Extract/*.v', 'ocaml/*.ml', 'lib/*.py']
     for pat in pats:
         for f in sorted(glob.glob(os.path.join(ctx.root, pat), recursive=True)):
             with open(f, 'rb') as fh:
@@ -153,7 +153,7 @@ def audit(ctx, pid, spec):
     Returns dict(obligations, discharged, problems[], assumptions{thm: text})"""
     problems = []
     # forbidden words anywhere in the development (outside comments)
-    for f in sorted(glob.glob(os.path.join(ctx.coq, '**', '*.v'), recursive=True)):
+    for f in project_files(ctx):
         txt = open(f).read()
         txt_nc = strip_coq_comments(txt)
         for m in FORBIDDEN.finditer(txt_nc):
@@ -197,6 +197,18 @@ def audit(ctx, pid, spec):
             problems.append('expected theorem %s is missing from %s' % (t, spec['props_file']))
     return dict(obligations=len(thms), discharged=discharged, problems=problems,
                 assumptions=assumptions, theorems=thms)
+
+
+def project_files(ctx):
+    """the .v files of the development = those listed in _CoqProject (only they are built by make;
+    a file that is not listed cannot be depended on after a clean build) plus Extract/Extract.v"""
+    out = []
+    for ln in open(os.path.join(ctx.coq, '_CoqProject')):
+        ln = ln.strip()
+        if ln.endswith('.v') and not ln.startswith('-'):
+            out.append(os.path.join(ctx.coq, ln))
+    out.append(os.path.join(ctx.coq, 'Extract', 'Extract.v'))
+    return sorted(out)
 
 
 def strip_coq_comments(s):
